@@ -156,6 +156,8 @@ def cases(tier, rng):
         yield case_line('z.east', s)
         yield case_line('z.west', s)
         yield case_line('z.uml', s)
+        yield case_line('z.peast', s)
+        yield case_line('z.pwest', s)
     ends = end_instants()
     mids = mid_instants()
     offs = OFFS_CORE + (OFFS_MORE if not quick else OFFS_MORE[:4])
